@@ -49,6 +49,12 @@ CLAIMED = {
         text="(a) deserialize(serialize(m)) == m field by field (strings with lengths incl. empty/duplicate/high bytes/long, function table with arbitrary field values, code up to 70 KiB, imports with parameter tables, debug entries, flags, entry point), serialize idempotent, stored CRC consistent - on modules built through the public nvm_* API by rapidcheck. (b) stdout bytes and exit status of the three ways to run a compiled program are equal, over exit statuses 0..255, runs ending in a failed assert, programs with globals (__init__) and extern calls; every produced .nvm is a fixed point of load/serialize.",
         note="The wrapper is built through nano_virt -o (links the prebuilt objects of build/plain). Sampling, not enumeration.",
         design="3/C10"),
+    "C08": dict(
+        category="exploration",
+        technique="Hypothesis-generated bounds cases (array length x boundary index x element kind x operation x index delivery x placement) with an exact oracle (exit != 0 and nothing after the access / model value for in-range controls) on native, NanoVM (plain and ASan/UBSan builds), nano_vm and the compile-time evaluator",
+        text="Indices are drawn from a boundary set around n, 2^31, 2^32 (incl. 2^32+k that a 32-bit cast would wrap into range) and +-2^63, reach the access only at run time (function result, loop, global, arithmetic), and the access sits at statement level, inside an operand, in a callee or on the k-th loop iteration; reads and writes of int/bool/string/float arrays; in-range controls keep the oracle from passing vacuously. Field cases (tuple index past arity, undeclared field, field of another union variant) must be refused at compile time or stop at run time.",
+        note="array_pop on an empty array and the wrong-variant field are recorded findings (ledger). Out-of-range behaviour of array_slice/array_remove_at is not in the statement and not asserted.",
+        design="3/C08"),
 }
 
 NOT_YET = {
